@@ -391,7 +391,17 @@ func (l *ledger) kill(t *ltx) {
 }
 
 // confirm marks t confirmed at height and removes unconfirmed conflicts.
-func (l *ledger) confirm(t *ltx, height int32) {
+func (l *ledger) confirm(t *ltx, height int32, fresh bool) {
+	if fresh {
+		// a NEW confirmation: the store clears the lease of every output the
+		// transaction spends (wtxmgr insertMinedTx: "clear any locked outputs
+		// since we now have a confirmed spend for them"; Tx/Ledger.v
+		// spec_confirm).  The lease does not come back when the block is
+		// detached and the spend forgotten later.
+		for _, in := range t.tx.TxIn {
+			delete(l.leases, in.PreviousOutPoint)
+		}
+	}
 	t.height = height
 	spent := map[wire.OutPoint]bool{}
 	for _, in := range t.tx.TxIn {
